@@ -72,7 +72,8 @@ def canon_key(x):
 class Sem:
     """semantics description shared by the reference and the real semantics object"""
 
-    def __init__(self, kind, rulenames, target=None, exc=None, named=(), shapes=None):
+    def __init__(self, kind, rulenames, target=None, exc=None, named=(), shapes=None, flavor='plain'):
+        self.flavor = flavor        # plain | unhashable (defines __eq__ only, like a plain @dataclass) | equal (every instance ==, same hash: a frozen dataclass) | falsy (__len__ is 0)
         self.kind = kind            # identity | tagging | default_only | mixed | fail_on | raise_on
         self.rulenames = rulenames
         self.target = target        # (rule, canon_key) for predicate kinds
@@ -140,6 +141,15 @@ class Sem:
                 kwargs.pop('parseinfo', None)
                 return sem.result('<default>', ast, args, kwargs, log, True)
             ns['_default'] = _default
+        if self.flavor == 'unhashable':
+            ns['__eq__'] = lambda self_, other: self_ is other
+            ns['__hash__'] = None
+        elif self.flavor == 'falsy':
+            ns['__len__'] = lambda self_: 0      # e.g. a semantics class that is also the (still empty) collection of what it has seen
+        elif self.flavor == 'equal':
+            ns['__eq__'] = lambda self_, other: getattr(other, '_vf_equal', False)
+            ns['__hash__'] = lambda self_: 7
+            ns['_vf_equal'] = True
         return type('VfSem', (), ns)()
 
     def ref_actions(self, log):
@@ -154,7 +164,7 @@ class Sem:
         return actions
 
     def describe(self):
-        return dict(kind=self.kind, target=self.target, exc=self.exc, named=sorted(self.named))
+        return dict(kind=self.kind, target=self.target, exc=self.exc, named=sorted(self.named), flavor=self.flavor)
 
 
 class RefAbort(Exception):
@@ -203,7 +213,7 @@ def check(rules, ruleinfo, start, text, semd, cache=None, history=None, lr=False
         if cache is not None:
             cache.update(model=model, cls=cls)
     # reference
-    sem = Sem(semd['kind'], names, target, semd.get('exc'), semd.get('named', ()), semd.get('shapes'))
+    sem = Sem(semd['kind'], names, target, semd.get('exc'), semd.get('named', ()), semd.get('shapes'), semd.get('flavor', 'plain'))
     rlog = []
     nomemo = {n for n in names if 'nomemo' in (ruleinfo.get(n, {}).get('decorators') or ())}
     ref = Ref(rd, text, actions=sem.ref_actions(rlog))
@@ -245,6 +255,11 @@ def check(rules, ruleinfo, start, text, semd, cache=None, history=None, lr=False
         try:
             with watchdog(10):
                 if side == 'model':
+                    if cache is None:
+                        for ptext, psemd in (history or []):     # replay: the earlier parses of the case, with their semantics objects
+                            psem = Sem(psemd['kind'], names, tuple(psemd['target']) if psemd.get('target') else None, psemd.get('exc'),
+                                       psemd.get('named', ()), psemd.get('shapes'), psemd.get('flavor', 'plain'))
+                            _model_parse(model, ptext, psem.make_object([]))
                     t = _model_parse(model, text, semobj)
                 else:
                     if cache is not None:
@@ -254,7 +269,7 @@ def check(rules, ruleinfo, start, text, semd, cache=None, history=None, lr=False
                         for ptext, psemd in (history or []):     # replay: re-create the history on a fresh instance
                             plog = []
                             psem = Sem(psemd['kind'], names, tuple(psemd['target']) if psemd.get('target') else None, psemd.get('exc'),
-                                       psemd.get('named', ()), psemd.get('shapes'))
+                                       psemd.get('named', ()), psemd.get('shapes'), psemd.get('flavor', 'plain'))
                             _parse_gen(inst, ptext, psem.make_object(plog))
                     t = _parse_gen(inst, text, semobj)
         except CaseTimeout:
@@ -411,7 +426,8 @@ def run_shard(sh, n):
                 plain = Ref(rule_dicts(rules, ruleinfo), text)
                 plain.parse(start)
                 kind = rnd.choice(['identity', 'tagging', 'tagging', 'default_only', 'mixed', 'fail_on', 'fail_on', 'raise_on', 'raise_on'])
-                semd = dict(kind=kind, target=None, exc=None, named=[nm for nm in names if rnd.random() < 0.5], shapes={})
+                semd = dict(kind=kind, target=None, exc=None, named=[nm for nm in names if rnd.random() < 0.5], shapes={},
+                            flavor=rnd.choice(['plain', 'plain', 'unhashable', 'equal', 'falsy']))
                 for nm in names:
                     np_ = len(ruleinfo.get(nm, {}).get('params') or ())
                     opts = ['A', 'A', 'D'] + (['B'] if np_ >= 1 else []) + (['C'] if np_ == 2 else [])
@@ -432,7 +448,7 @@ def run_shard(sh, n):
                         sh.fail(d['bucket'], dict(rules=rules, ruleinfo=ruleinfo, start=start, input=text, sem=semd), d)
                     return
                 nt = info.get('ncalls', 0) > 0 and (semd['kind'] not in ('fail_on', 'raise_on') or info.get('fired'))
-                cls = [f'sem:{semd["kind"]}', f'ref:{info.get("ref")}']
+                cls = [f'sem:{semd["kind"]}', f'ref:{info.get("ref")}', f'semantics-object:{semd["flavor"]}']
                 if fixed_inputs:
                     cls.append('scalar-valued rule (1 / True / 1.0)')
                 if lr:
